@@ -8,6 +8,7 @@
 -/
 import SamlVerif.Proofs.Duration
 import SamlVerif.Proofs.Time
+import SamlVerif.Model.Metadata
 
 namespace SamlVerif.Duration
 
@@ -159,3 +160,167 @@ example : unmarshal "2006-01-02T15:04:05+0700".toList = none := by decide +kerne
 example : 0 ≤ yearOf 1136214245000000000 ∧ yearOf 1136214245000000000 ≤ 9999 := by decide +kernel
 
 end SamlVerif.TimeM
+
+/-! ### metadata: one marshal/unmarshal generation reaches the normal form, which is a fixed point -/
+
+namespace SamlVerif.Metadata
+open SamlVerif
+
+theorem check_unknown (b : String) (l : Bytes) (h : Html.knownBindings.contains b = false) :
+    Html.checkEndpointLocation b l = .ok [] := by
+  unfold Html.checkEndpointLocation
+  rw [h]
+  rfl
+
+theorem normEndpoint_known (e : Endpoint) (h : Html.knownBindings.contains e.binding = true) : normEndpoint e = e := by
+  unfold normEndpoint; rw [h]; rfl
+
+theorem normEndpoint_unknown (e : Endpoint) (h : Html.knownBindings.contains e.binding = false) :
+    normEndpoint e = { e with location := [], response := none } := by
+  unfold normEndpoint; rw [h]; rfl
+
+theorem readEndpoint_norm (e : Endpoint) (h : Acceptable e) : readEndpoint e = .ok (normEndpoint e) := by
+  obtain ⟨hne, hk⟩ := h
+  cases hb : Html.knownBindings.contains e.binding with
+  | true =>
+    obtain ⟨hl, hr⟩ := hk hb
+    rw [normEndpoint_known e hb]
+    obtain ⟨idx, bnd, loc, resp⟩ := e
+    simp only at hl hr hne hb
+    have hl' : Html.checkEndpointLocation bnd loc = .ok loc := hl
+    cases idx with
+    | true =>
+      cases resp with
+      | none => simp [readEndpoint, Html.unmarshalIndexedEndpoint, hl']
+      | some r =>
+        have hrr : Html.checkEndpointLocation bnd r = .ok r := hr r rfl
+        have hr0 : r ≠ [] := fun h0 => hne (by rw [h0])
+        simp [readEndpoint, Html.unmarshalIndexedEndpoint, hl', hrr, hr0]
+    | false =>
+      cases resp with
+      | none => simp [readEndpoint, Html.unmarshalEndpoint, hl']
+      | some r =>
+        have hrr : Html.checkEndpointLocation bnd r = .ok r := hr r rfl
+        have hr0 : r ≠ [] := fun h0 => hne (by rw [h0])
+        simp [readEndpoint, Html.unmarshalEndpoint, hl', hrr, hr0]
+  | false =>
+    rw [normEndpoint_unknown e hb]
+    obtain ⟨idx, bnd, loc, resp⟩ := e
+    simp only at hb
+    cases idx with
+    | true =>
+      cases resp with
+      | none => simp [readEndpoint, Html.unmarshalIndexedEndpoint, check_unknown _ _ hb]
+      | some r => simp [readEndpoint, Html.unmarshalIndexedEndpoint, check_unknown _ _ hb]
+    | false =>
+      cases resp with
+      | none => simp [readEndpoint, Html.unmarshalEndpoint, check_unknown _ _ hb]
+      | some r =>
+        by_cases hr0 : r = []
+        · simp [readEndpoint, Html.unmarshalEndpoint, check_unknown _ _ hb, hr0]
+        · simp [readEndpoint, Html.unmarshalEndpoint, check_unknown _ _ hb, hr0]
+
+theorem readEndpoints_norm (es : List Endpoint) (h : ∀ e ∈ es, Acceptable e) :
+    readEndpoints es = .ok (es.map normEndpoint) := by
+  induction es with
+  | nil => rfl
+  | cons e es ih =>
+    unfold readEndpoints
+    rw [readEndpoint_norm e (h e (by simp)), ih (fun x hx => h x (by simp [hx]))]
+    rfl
+
+/-- the value is one the text forms can carry: the rounded validity instant lies in a year of at most
+    four digits, the cache duration is an int64, endpoints of standard bindings are http(s) URLs -/
+structure WellFormed (v : MD) : Prop where
+  year : 0 ≤ TimeM.yearOf v.validUntil ∧ TimeM.yearOf v.validUntil ≤ 9999
+  dur : -Duration.two63 ≤ v.cacheDuration ∧ v.cacheDuration < Duration.two63
+  eps : ∀ e ∈ v.endpoints, Acceptable e
+
+/-- **C15 (metadata), one generation**: what is read back from what was written is the normal form of
+    the value — instant rounded to the millisecond, endpoints of unknown bindings blanked, everything
+    else (entity ID, key descriptors, cache duration, http(s) endpoints) as it was -/
+theorem C15_metadata_generation (v : MD) (h : WellFormed v) : read (write v) = .ok (norm v) := by
+  unfold read write
+  simp only
+  rw [TimeM.C15_instant_roundtrip v.validUntil h.year]
+  have hd : readDuration (if v.cacheDuration = 0 then none else some (Duration.marshal v.cacheDuration)) = .ok v.cacheDuration := by
+    by_cases h0 : v.cacheDuration = 0
+    · simp [h0, readDuration]
+    · have := Duration.C15_duration_roundtrip v.cacheDuration h.dur.1 h.dur.2
+      unfold Duration.roundTrip at this
+      rw [if_neg h0] at this
+      simp [h0, readDuration, this]
+  simp only [hd, readEndpoints_norm v.endpoints h.eps]
+  rfl
+
+theorem normEndpoint_idem (e : Endpoint) : normEndpoint (normEndpoint e) = normEndpoint e := by
+  cases hb : Html.knownBindings.contains e.binding with
+  | true => rw [normEndpoint_known e hb, normEndpoint_known e hb]
+  | false =>
+    rw [normEndpoint_unknown e hb]
+    exact normEndpoint_unknown _ hb
+
+/-- the normal form is a fixed point of normalisation … -/
+theorem C15_metadata_norm_idempotent (v : MD) : norm (norm v) = norm v := by
+  unfold norm
+  simp only [List.map_map]
+  congr 1
+  · rw [TimeM.C15_round_idempotent]
+  · apply List.map_congr_left
+    intro e _
+    exact normEndpoint_idem e
+
+theorem acceptable_norm (e : Endpoint) (h : Acceptable e) : Acceptable (normEndpoint e) := by
+  cases hb : Html.knownBindings.contains e.binding with
+  | true => rw [normEndpoint_known e hb]; exact h
+  | false =>
+    rw [normEndpoint_unknown e hb]
+    refine ⟨by simp, ?_⟩
+    intro hk
+    simp only at hk
+    rw [hb] at hk
+    exact absurd hk (by simp)
+
+theorem yearOf_norm (ns : Int) : TimeM.yearOf (TimeM.roundMs ns * 1000000) = TimeM.yearOf ns := by
+  unfold TimeM.yearOf
+  rw [TimeM.C15_round_idempotent]
+
+theorem wellFormed_norm (v : MD) (h : WellFormed v) : WellFormed (norm v) where
+  year := by
+    show 0 ≤ TimeM.yearOf (TimeM.roundMs v.validUntil * 1000000) ∧ TimeM.yearOf (TimeM.roundMs v.validUntil * 1000000) ≤ 9999
+    rw [yearOf_norm]; exact h.year
+  dur := h.dur
+  eps := by
+    intro e he
+    obtain ⟨e0, he0, rfl⟩ := List.mem_map.mp he
+    exact acceptable_norm e0 (h.eps e0 he0)
+
+/-- … **and of a further marshal/unmarshal generation**: after one generation the value no longer changes -/
+theorem C15_metadata_fixed_point (v : MD) (h : WellFormed v) : read (write (norm v)) = .ok (norm v) := by
+  rw [C15_metadata_generation (norm v) (wellFormed_norm v h), C15_metadata_norm_idempotent]
+
+/-- what the generation preserves, spelled out -/
+theorem C15_metadata_preserves (v : MD) :
+    (norm v).entityID = v.entityID ∧ (norm v).keys = v.keys ∧ (norm v).cacheDuration = v.cacheDuration ∧
+    (norm v).validUntil = TimeM.roundMs v.validUntil * 1000000 ∧
+    (norm v).endpoints.length = v.endpoints.length ∧
+    (∀ e ∈ v.endpoints, Html.knownBindings.contains e.binding = true → normEndpoint e = e) := by
+  refine ⟨rfl, rfl, rfl, rfl, by simp [norm], ?_⟩
+  intro e _ hb
+  exact normEndpoint_known e hb
+
+/-- non-vacuity: a descriptor with a non-millisecond validity instant in a zone-free representation, a sub-second
+    cache duration, an http endpoint, an endpoint of an unknown binding and a key descriptor is well-formed -/
+def bs (s : String) : Bytes := s.toList.map (fun c => UInt8.ofNat c.toNat)
+
+def sampleMD : MD :=
+  { entityID := "https://sp.example.com/metadata", validUntil := 1715949045123456789, cacheDuration := 5400000000001,
+    endpoints := [⟨true, "urn:oasis:names:tc:SAML:2.0:bindings:HTTP-POST", bs "https://sp.example.com/acs", none⟩,
+                  ⟨false, "urn:unknown:binding", bs "javascript:alert(1)", some (bs "x")⟩],
+    keys := [⟨"signing", ["MIIB"]⟩] }
+
+example : read (write sampleMD) = .ok (norm sampleMD) := by decide +kernel
+example : (norm sampleMD).validUntil = 1715949045123000000 ∧ (norm sampleMD).endpoints.map (·.location) =
+    [bs "https://sp.example.com/acs", []] := by decide +kernel
+
+end SamlVerif.Metadata
